@@ -102,6 +102,9 @@ def gen_seq(kind, sizes, rng, ops, thorough):
                     ops.append(load(kind, "-", pv, arr(items)))
         for root in ("i7", "n", "s78", "m0", "m1,i1,i2"):
             ops.append(load(kind, "-", pv, root))
+    for p in (40, 300):                     # a populated target far larger than the document
+        for n in (0, 1, 3):
+            ops.append(load(kind, "-", seq(prior_vals(kind, p)), arr(ints(n))))
 
 
 def gen_sets(kind, sizes, rng, ops, thorough):
@@ -122,6 +125,9 @@ def gen_sets(kind, sizes, rng, ops, thorough):
         ops.append(load(kind, "-", pv, arr(["i901", "i0", "i5"])))
         ops.append(load(kind, "-", pv, "i7"))
         ops.append(load(kind, "-", pv, "n"))
+    for p in (40, 300):                     # a populated target far larger than the document
+        for n in (0, 1, 3):
+            ops.append(load(kind, "-", seq(prior_vals(kind, p)), arr(ints(n))))
 
 
 def gen_fixed(rng, ops):
@@ -221,6 +227,12 @@ def gen_maps(kind, sizes, rng, ops, thorough):
                             ops.append(load(kind, mode, prior, obj(e)))
             for root in ("i7", "n", "a0", "a1,i1"):
                 ops.append(load(kind, mode, prior, root))
+        # a populated target FAR larger than the document (capacity / bucket-table handling must not touch its entries unless the mode says so)
+        for p in (33, 70, 260):
+            prior = ",".join("%d:%s" % (k + 1, pval(k)) for k in range(p))
+            for n in (0, 1, 2, 3):
+                for first in (1, p, p + 1):
+                    ops.append(load(kind, mode, prior, obj([("i%d" % k, dval(k)) for k in range(first, first + n)])))
 
 
 def pair(k, v):
